@@ -17,6 +17,7 @@
 //                   O PROBLEM <string>       (only if force were set; not used)
 //   osf <nfam> <nk> <mode> then nfam x (1 + nk) x 35 doubles: re-used objects, see do_osf(); same O lines
 //   spec <n> then n x 40 doubles: public spectrum entry points of MSSMNoFV_onshell, see do_spec(); T / X lines
+//   select <n> <i_1..i_n>: subsequent `os` lines print only these columns of the NAMES_O layout (n = 0: all)
 //   END <ncases>
 #include "covsig.hpp"
 #include "gm2calc/MSSMNoFV_onshell.hpp"
@@ -70,6 +71,10 @@ struct Out {
       std::printf("\n");
    }
    void print_values() const { for (double x : v) std::printf(" %a", x); }
+   void print_selected(const std::vector<int>& sel) const {
+      if (sel.empty()) { print_values(); return; }
+      for (int i : sel) std::printf(" %a", v.at(i));
+   }
 };
 
 // ---------------------------------------------------------------- tree-level spectrum (C04)
@@ -325,6 +330,8 @@ static void apply_susy(MSSMNoFV_onshell& m, const OP& p) {
    }
 }
 
+static std::vector<int> g_select;     // `select`: indices of the O columns to print (empty = all)
+
 static std::string oneline(std::string s) { for (char& c : s) if (c == '\n' || c == '\r') c = ' '; return s; }
 
 static void do_os(long n) {
@@ -333,7 +340,7 @@ static void do_os(long n) {
       for (int i = 0; i < NOP; i++) raw[i] = rd();
       try {
          Out o; os_eval(p, o);
-         std::printf("O OK"); o.print_values(); std::printf("\n");
+         std::printf("O OK"); o.print_selected(g_select); std::printf("\n");
       } catch (const EInvalidInput& e) { std::printf("O EXC EInvalidInput %s\n", oneline(e.what()).c_str());
       } catch (const EPhysicalProblem& e) { std::printf("O EXC EPhysicalProblem %s\n", oneline(e.what()).c_str());
       } catch (const Error& e) { std::printf("O EXC Error %s\n", oneline(e.what()).c_str());
@@ -344,7 +351,7 @@ static void do_os(long n) {
 template <class F> static void guarded(F f) {
    try {
       Out o; f(o);
-      std::printf("O OK"); o.print_values(); std::printf("\n");
+      std::printf("O OK"); o.print_selected(g_select); std::printf("\n");
    } catch (const EInvalidInput& e) { std::printf("O EXC EInvalidInput %s\n", oneline(e.what()).c_str());
    } catch (const EPhysicalProblem& e) { std::printf("O EXC EPhysicalProblem %s\n", oneline(e.what()).c_str());
    } catch (const Error& e) { std::printf("O EXC Error %s\n", oneline(e.what()).c_str());
@@ -457,6 +464,7 @@ int main() {
       else if (cmd == "tree") { std::cin >> n; do_tree(n); }
       else if (cmd == "tsig") { std::cin >> n; do_tsig(n); }
       else if (cmd == "os") { std::cin >> n; do_os(n); }
+      else if (cmd == "select") { std::cin >> n; g_select.assign(n, 0); for (auto& i : g_select) std::cin >> i; n = 0; }
       else if (cmd == "spec") { std::cin >> n; do_spec(n); }
       else if (cmd == "osf") { long nk; int mode; std::cin >> n >> nk >> mode; do_osf(n, nk, mode); }
       else { std::printf("ERR cmd %s\n", cmd.c_str()); return 2; }
